@@ -3,7 +3,7 @@ from pyvc.api import *
 from pyvc.spec import callee_of
 
 SPEC_IMPORTS = ['contracts.common']
-SPEC_FUNCTIONS = ['doc_sort_key', 'name_with_symbols_spec', 'match_spec']
+SPEC_FUNCTIONS = ['doc_sort_key', 'name_with_symbols_spec', 'match_spec', 'sorted_spec']
 REC_FUNCTIONS = {'gsub': ([('l', STR), ('s', STR)], BOOL)}
 
 
@@ -27,6 +27,11 @@ def match_spec(string, like, fuzzy):
 
 def name_with_symbols_spec(public_name, bracket):
     return public_name + ('(' if bracket else '')
+
+
+def sorted_spec(completions, fragment):
+    """the name completions in the documented order (stable)"""
+    return sorted(completions, key=lambda c: doc_sort_key(c.name, fragment))
 
 
 def doc_sort_key(name, fragment):
@@ -243,8 +248,66 @@ _filter_names = Contract(
     ],
 )
 
+def _region_final(func):
+    """the statements after the completion names have been filtered: the ordering of the result"""
+    import ast
+    idx = None
+    for i, st in enumerate(func.body):
+        if isinstance(st, ast.Assign) and len(st.targets) == 1 and isinstance(st.targets[0], ast.Name) \
+                and st.targets[0].id == 'completions':
+            idx = i
+    if idx is None:
+        return None
+    return func.body[idx + 1:]
+
+
+def _replay_order(inp):
+    from pyvc.replay import run_real
+    import jedi
+    from jedi import settings
+    old = settings.case_insensitive_completion
+    settings.case_insensitive_completion = inp.get('ci', True)
+    try:
+        code = ''.join('%s = 1\n' % n for n in inp['names']) + inp['fragment']
+        s = jedi.Script(code)
+        out = run_real(lambda: [c.name for c in s.complete()])
+    finally:
+        settings.case_insensitive_completion = old
+    return {'FRAGMENT': inp['fragment']}, out
+
+
+def _order_contract(n):
+    c = Contract(
+        id='C04.Completion.complete.order[%d]' % n, prop='C04',
+        clause='(e) the list is ordered as documented: names starting with the fragment as typed (matching case) '
+               'first, then public, _private, __dunder__, then alphabetical (case-insensitive); prefixed completions '
+               'first, minus those also offered as names (%d name completions)' % n,
+        file='jedi/api/completion.py', qualname='Completion.complete', region=_region_final,
+        params={'self': Obj('CompletionAPI')},
+        free={'prefixed_completions': Seq(Obj('Completion')), 'completions': Seq(Obj('Completion'))},
+        families=['CompletionAPI', 'Completion'], ret=Seq(Obj('Completion')), tier='SB',
+        bounds={'name completions': n},
+        ensures=['result == _remove_duplicates(prefixed_completions, completions) + '
+                 'sorted_spec(completions, self._like_name)'],
+        concrete_ensures=[
+            'result == sorted(result, key=lambda n: (not n.startswith(FRAGMENT), n.startswith("__"), '
+            'n.startswith("_"), n.lower()))'],
+        witness={}, replay=_replay_order,
+        witness_library=[{'names': ['Path', 'path', 'pathlib_x', '_path', '__path__'], 'fragment': 'Pa', 'ci': True},
+                         {'names': ['value', 'Value', 'VALVE', 'valid'], 'fragment': 'Va', 'ci': True},
+                         {'names': ['abc', 'Abd', '_abe', 'ab'], 'fragment': 'ab', 'ci': True},
+                         {'names': ['abc', 'Abd', 'ab'], 'fragment': 'ab', 'ci': False}],
+        notes='block contract on the statements after `completions = list(filter_names(...))`; sorted() modelled '
+              'exactly (stable compare-exchange network) for the bounded length',
+    )
+    c.shape = {'completions': n}
+    return c
+
+
+ORDER = [_order_contract(n) for n in range(0, 4)]
+
 CONTRACTS = [_start_match, _fuzzy_match, _match, _complete, _complete_prop, _nws, _prefix_len, _param_eq,
-             _filter_names]
+             _filter_names] + ORDER
 
 NOT_DECIDED = [
     '(f) attribute completeness after `expr.` against the run-time object (needs the inference engine)',
@@ -258,3 +321,7 @@ def register(reg):
     from pyvc.values import MNS, MFn
     reg.names['classes'] = MNS('classes', {'Completion': MFn('spec', 'classes.Completion', spec=_Completion_ctor)})
     reg.names['helpers'] = MNS('helpers', {'match': MFn('spec', 'match', spec=callee_of(_match))})
+    reg.names['_remove_duplicates'] = FnSpec(
+        '_remove_duplicates', params=[('completions', Seq(Obj('Completion'))), ('other', Seq(Obj('Completion')))],
+        ret=Seq(Obj('Completion')), pure=True, assumed=False,
+        note='prefixed completions whose name is not also offered as a name completion')
